@@ -80,8 +80,17 @@ class CallMixin:
         if isinstance(f, (types.FunctionType,)):
             if f.__name__ in self.reg.specs and self.reg.specs[f.__name__].fn is f:
                 return self.call_spec(self.reg.specs[f.__name__], args, node)
+            if (f.__module__ or '') in self.effect_modules:
+                # logging and similar: an effect recorded in the ghost trace, no value
+                self.path.trace.append((f'{f.__module__}.{f.__name__}',))
+                self.assumptions.add(f'{f.__module__}.* calls are effects without influence on the computed values')
+                return None
             if (f.__module__ or '').startswith('mesonbuild'):
                 return self.call_function(f, args, kwargs, node)
+        if isinstance(f, types.MethodType) and isinstance(f.__func__, types.FunctionType) and (f.__func__.__module__ or '') in self.effect_modules:
+            self.path.trace.append((f'{f.__func__.__module__}.{f.__func__.__name__}',))
+            self.assumptions.add(f'{f.__func__.__module__}.* calls are effects without influence on the computed values')
+            return None
         if isinstance(f, types.MethodType) and isinstance(f.__func__, types.FunctionType) and (f.__func__.__module__ or '').startswith('mesonbuild'):
             return self.call_function(f.__func__, [f.__self__] + list(args), kwargs, node)
         if not any(is_sym(a) or contains_sym(a) or isinstance(a, (PyList, PyDict, Closure)) for a in list(args) + list(kwargs.values())):
@@ -606,6 +615,8 @@ class CallMixin:
         return out
 
     def unwrap_term(self, v):
+        if isinstance(v, VOpt):
+            v = v.val
         if isinstance(v, (VAbs, VObj)):
             return v.term
         if isinstance(v, VBox):
@@ -692,6 +703,8 @@ class CallMixin:
         names['rangeset'] = Builtin('rangeset', lambda a, k, n, f: self.b_set([self.b_range(a, {}, n, f)], {}, n, f) if any(is_sym(x) for x in a) else VBox('set', self._const_intset(range(*a)), api.Int))
         names['setadd'] = Builtin('setadd', self.b_setadd)
         names['emptyset'] = Builtin('emptyset', lambda a, k, n, f: VBox('set', None))
+        for an_, S_ in (getattr(c, 'opaque_attrs', None) or {}).items():
+            names['attr_' + an_] = Builtin('attr_' + an_, lambda a, k, n, f, an_=an_: self.obj_attr(a[0], an_, n))
         names['re_match'] = Builtin('re_match', lambda a, k, n, f: self.re_syms(a[0], a[2] if len(a) > 2 else 'match')[1](self.zs.lift(a[1], STR)))
         names['re_group'] = Builtin('re_group', lambda a, k, n, f: self.re_group_syms(a[0], a[3] if len(a) > 3 else 'match', a[1])[0](self.zs.lift(a[2], STR)))
         names['re_group_none'] = Builtin('re_group_none', lambda a, k, n, f: self.re_group_syms(a[0], a[3] if len(a) > 3 else 'match', a[1])[1](self.zs.lift(a[2], STR)))
